@@ -25,6 +25,33 @@ def gen_and_replay(acc, tag, maxlen, profile, envset, prop, workers=14):
     return rep
 
 
+def drive_and_validate(acc, n, prop, opzoo=True):
+    """T direction: random driver over the real code, trace validated by TLC (Trace_Clvm)."""
+    trace = os.path.join(core.BUILD, f"{acc.prop}_drive.ndjson")
+    out = os.path.join(core.BUILD, f"{acc.prop}_drive.report.json")
+    args = ["drive-clvm", "--n", str(n), "--trace", trace, "--out", out]
+    if opzoo:
+        args.append("--opzoo")
+    core.run_vh(args)
+    rep = core.load_json(out)
+    rep["violations"] = [v for v in rep["violations"] if v["property"] == prop]
+    res = core.trace_validate(acc, "Trace_Clvm", "Trace_Clvm.cfg", trace, "Trace_Clvm")
+    if res["specerr"]:
+        acc.spec_errors += [{"trace_record": x, "file": trace} for x in res["specerr"]]
+    bad = res["bad04"] if prop == "C04" else res["bad06"]
+    # TLC is the judge of the trace; the harness-side decision must agree with it
+    if len(bad) != len(rep["violations"]):
+        raise core.ToolError(f"trace spec and harness disagree on the number of {prop} violations: "
+                             f"TLC {len(bad)} vs harness {len(rep['violations'])}")
+    acc.drift += len(res["drift"])
+    for d in res["drift"][:3]:
+        acc.drift_samples.append({"trace_record": d, "what": "ClvmStepper model outcome differs from the observed stepper"})
+    acc.add_report(rep)
+    acc.counts.update({f"trace_{k}": v for k, v in res["cnt"].items()})
+    os.remove(trace)
+    return res
+
+
 def replay_case(path, prop):
     rec = core.load_json(path)
     v = rec["violation"]
